@@ -44,7 +44,14 @@ func runSpec(s spec) vh.Case {
 	var c vh.Case
 	switch parts[0] {
 	case "W":
-		c = genWrapper(r, parts[1])
+		switch parts[1] {
+		case "big":
+			c = genBig(r, 1100, 1500)
+		case "big5k":
+			c = genBig(r, 2000, 5000)
+		default:
+			c = genWrapper(r, parts[1])
+		}
 	case "I":
 		deg, _ := strconv.Atoi(parts[1])
 		c = genInner(r, deg, parts[2])
@@ -203,6 +210,7 @@ func main() {
 			{"I/2/sweep", 3, 50}, {"I/3/sweep", 2, 50}, {"I/4/sweep", 2, 40}, {"I/8/sweep", 1, 30},
 			{"C/2", 18, 350}, {"C/3", 12, 250}, {"C/4", 8, 150}, {"C/8", 4, 100},
 			{"P/2", 4, 60}, {"P/3", 4, 60}, {"P/4", 3, 60},
+			{"W/big", 2, 12}, {"W/big5k", 0, 3},
 			{"M/2/8000", 3, 20}, {"M/3/8000", 3, 20}, {"M/4/20000", 2, 20},
 			// targeted classes: every limit / every stop count on trees of three levels; stored-again keys; clones of a full root
 			{"W/limits", 12, 150}, {"I/2/stops", 4, 40}, {"I/3/stops", 4, 40},
@@ -230,7 +238,7 @@ func main() {
 		// mix the classes so that the case files the driver cuts are of similar size
 		e.Rnd.Shuffle(len(specs), func(i, j int) { specs[i], specs[j] = specs[j], specs[i] })
 		supervise(e, specs)
-		e.Meta["generator"] = "c03/6"
+		e.Meta["generator"] = "c03/7"
 	})
 }
 
